@@ -351,14 +351,16 @@ impl Sim {
                 };
                 match verdict {
                     Ok(newgen) => {
+                        // generations of attempt records are not part of the model
+                        let absgen = if abs["key"] == "state" { newgen } else { 0 };
                         if fault == "reject" {
                             (Err(fault_err), json!({"r":"fault","applied":false}))
                         } else {
                             self.store.insert(key.clone(), (s.clone(), newgen));
                             if fault == "lost" {
-                                (Err(fault_err), json!({"r":"fault","applied":true,"gen":newgen}))
+                                (Err(fault_err), json!({"r":"fault","applied":true,"gen":absgen}))
                             } else {
-                                (Ok(json!({"key":key,"generation":newgen,"string":s})), json!({"r":"ok","applied":true,"gen":newgen}))
+                                (Ok(json!({"key":key,"generation":newgen,"string":s})), json!({"r":"ok","applied":true,"gen":absgen}))
                             }
                         }
                     }
